@@ -191,11 +191,12 @@ inline Ref forwardLD(const Model& m) {
   for (size_t i = m.L - 1; i > 0; --i) {
     for (size_t j = 0; j < m.n; ++j) {
       if (isStart[i]) { bk[i - 1][j] = 1; continue; }
-      LD x = 0; for (size_t k = 0; k < m.n; ++k) x += (LD)m.P[j][k] * emis(m, i, k).v * bk[i][k];
+      // impossible moves are skipped: the rescaled backward value of a state that cannot be occupied may overflow, and 0 * inf is not 0
+      LD x = 0; for (size_t k = 0; k < m.n; ++k) { LD w = (LD)m.P[j][k] * emis(m, i, k).v; if (w > 0) x += w * bk[i][k]; }
       bk[i - 1][j] = x / sc[i];
     }
   }
-  for (size_t i = 0; i < m.L; ++i) for (size_t j = 0; j < m.n; ++j) { r.post[i][j] = f[i][j] * bk[i][j]; r.siteLik[i] += r.post[i][j] * emis(m, i, j).v; }
+  for (size_t i = 0; i < m.L; ++i) for (size_t j = 0; j < m.n; ++j) { r.post[i][j] = f[i][j] > 0 ? f[i][j] * bk[i][j] : 0; r.siteLik[i] += r.post[i][j] * emis(m, i, j).v; }
   return r;
 }
 
